@@ -173,15 +173,141 @@ with rre_else (n : nat) (e : list stmt) : list stmt :=
 Definition remove_redundant_else_model (p : list stmt) : list stmt := rre (fuel_of p) p.
 
 (* ---------------------------------------------------------------------------------------------- *)
+(* fixes.fix_if_return (fixes.py:3891-3917):
+     if c: return True          if c: return False
+     return False        and    return True          anywhere in a block
+   become `return c` and `return not c`.  The constants are matched exactly (True/False only). *)
+Definition ret_const (b : list stmt) : option bool :=
+  match b with [SReturn (RVal (VBool v))] => Some v | _ => None end.
+Definition fir_site (p : list stmt) : option (test * bool * list stmt) :=
+  match p with
+  | SIf t b [] :: SReturn (RVal (VBool w)) :: rest =>
+      match ret_const b with
+      | Some v => if xorb v w then Some (t, v, rest) else None
+      | None => None
+      end
+  | _ => None
+  end.
+Fixpoint fir (n : nat) (p : list stmt) : list stmt :=
+  match n with
+  | O => p
+  | S n' =>
+      match fir_site p with
+      | Some (t, v, rest) => SReturn (RTest (if v then t else TNot t)) :: fir n' rest
+      | None =>
+          match p with
+          | [] => []
+          | s :: rest =>
+              match s with
+              | SIf t b e => SIf t (fir n' b) (fir n' e)
+              | SLoop h b e => SLoop h (fir n' b) (fir n' e)
+              | _ => s
+              end :: fir n' rest
+          end
+      end
+  end.
+Definition fix_if_return_model (p : list stmt) : list stmt := fir (fuel_of p) p.
+
+(* the guard of the partial theorem: every `return c` site has a boolean-valued condition *)
+Definition boolish (t : test) : bool := match t with Unknown _ _ => false | _ => true end.
+Fixpoint fir_safe (n : nat) (p : list stmt) : bool :=
+  match n with
+  | O => true
+  | S n' =>
+      match fir_site p with
+      | Some (t, v, rest) => (if v then boolish t else true) && fir_safe n' rest
+      | None =>
+          match p with
+          | [] => true
+          | s :: rest =>
+              match s with
+              | SIf t b e => fir_safe n' b && fir_safe n' e
+              | SLoop h b e => fir_safe n' b && fir_safe n' e
+              | _ => true
+              end && fir_safe n' rest
+          end
+      end
+  end.
+
+(* ---------------------------------------------------------------------------------------------- *)
+(* fixes.fix_if_assign (fixes.py:3920-3950, after repair 066a7f0: elif nodes are skipped):
+     if c: v = True else: v = False   ->  v = c        (and the mirrored form -> v = not c) *)
+Definition asg_const (b : list stmt) : option (var * bool) :=
+  match b with [SAssign x (RVal (VBool v))] => Some (x, v) | _ => None end.
+Definition fia_site (s : stmt) : option (test * var * bool) :=
+  match s with
+  | SIf t b e =>
+      match asg_const b, asg_const e with
+      | Some (x, v), Some (y, w) => if Nat.eqb x y && xorb v w then Some (t, x, v) else None
+      | _, _ => None
+      end
+  | _ => None
+  end.
+Fixpoint fia (n : nat) (p : list stmt) : list stmt :=
+  match n with
+  | O => p
+  | S n' =>
+      map (fun s =>
+        match fia_site s with
+        | Some (t, x, v) => SAssign x (RTest (if v then t else TNot t))
+        | None =>
+            match s with
+            | SIf t b e => SIf t (fia n' b) (fia_else n' e)
+            | SLoop h b e => SLoop h (fia n' b) (fia n' e)
+            | _ => s
+            end
+        end) p
+  end
+with fia_else (n : nat) (e : list stmt) : list stmt :=
+  match n with
+  | O => e
+  | S n' =>
+      match e with
+      | [SIf t2 b2 e2] => [SIf t2 (fia n' b2) (fia_else n' e2)]     (* elif: not a site *)
+      | _ => fia n' e
+      end
+  end.
+Definition fix_if_assign_model (p : list stmt) : list stmt := fia (fuel_of p) p.
+
+Fixpoint fia_safe (n : nat) (p : list stmt) : bool :=
+  match n with
+  | O => true
+  | S n' =>
+      forallb (fun s =>
+        match fia_site s with
+        | Some (t, x, v) => if v then boolish t else true
+        | None =>
+            match s with
+            | SIf t b e => fia_safe n' b && fia_safe_else n' e
+            | SLoop h b e => fia_safe n' b && fia_safe n' e
+            | _ => true
+            end
+        end) p
+  end
+with fia_safe_else (n : nat) (e : list stmt) : bool :=
+  match n with
+  | O => true
+  | S n' =>
+      match e with
+      | [SIf t2 b2 e2] => fia_safe n' b2 && fia_safe_else n' e2
+      | _ => fia_safe n' e
+      end
+  end.
+
+(* ---------------------------------------------------------------------------------------------- *)
 (* correspondence plumbing: (rule number, input program, expected output of the real rule) *)
 Definition apply_rule (k : nat) (p : list stmt) : list stmt :=
   match k with
   | 0 => remove_dead_ifs_model p
   | 1 => remove_redundant_else_model p
+  | 2 => fix_if_return_model p
+  | 3 => fix_if_assign_model p
   | _ => p
   end.
-Definition rule_case_ok (c : nat * list stmt * list stmt) : bool :=
-  let '(k, p, expected) := c in prog_eqb (canon (apply_rule k p)) expected.
+(* expected = None: the real rule left the program unchanged *)
+Definition rule_case_ok (c : nat * list stmt * option (list stmt)) : bool :=
+  let '(k, p, expected) := c in
+  prog_eqb (canon (apply_rule k p)) (match expected with Some q => q | None => p end).
 
 (* is_blocking / may_leave against core.is_blocking / core._may_leave_iteration *)
 Definition blocking_case_ok (c : stmt * list bool) : bool :=
